@@ -269,6 +269,10 @@ duration_div!(i32);
 duration_div!(u64);
 duration_div!(i64);
 
+#[cfg(pendulum_project_ntpd_rs_verif)]
+#[path = "/verif/hooks/statime_base_time.rs"]
+pub mod verif_hook;
+
 #[cfg(all(test, feature = "std"))]
 #[expect(clippy::float_cmp, reason = "Test code")]
 mod tests {
